@@ -205,6 +205,20 @@ func c12Expr(ctx *core.Ctx, idx int) core.Result {
 	ts := []gen.Ty{gen.Int, gen.Int, gen.Bool, gen.Str, gen.ArrOf(gen.Int), gen.Float}
 	t := ts[r.Intn(len(ts))]
 	e := g.Expr(t, r.Range(1, 4))
+	if r.Chance(1, 10) {
+		// an operator whose two operands are the same tree and contain a call with an effect: the call happens twice
+		prelude = append(prelude, ast.Assign{Name: "tcount", Value: ast.FuncLit{Params: []string{"k"}, Body: ast.Block{Stmts: []ast.Node{icall("write", ast.StrLit{V: "#"}), ast.Binary{Op: "+", L: nm("k"), R: il(1)}}}}})
+		c := icall("tcount", g.Expr(gen.Int, 1))
+		switch r.Intn(3) {
+		case 0:
+			t, e = gen.Int, ast.Binary{Op: []string{"+", "*", "-"}[r.Intn(3)], L: c, R: c}
+		case 1:
+			t, e = gen.Int, ast.Binary{Op: "+", L: ast.Binary{Op: "*", L: c, R: il(2)}, R: ast.Binary{Op: "*", L: c, R: il(2)}}
+		default:
+			t, e = gen.Bool, ast.Binary{Op: "==", L: c, R: c}
+		}
+		res.Tag("expr:same-operand-trees-with-effect")
+	}
 	res.Hash = core.Mix(sessionHash(prelude) ^ core.HashString(ast.Sexp(e)))
 	// the reference answer for the plain expression
 	ref := rs.New()
